@@ -154,6 +154,18 @@ def run(ctx: Any, prog: Program) -> None:
     if len(rnames) == len(wargs):
         for i, (rn, wa) in enumerate(zip(rnames, wargs)):
             wattrs = {x.attr for x in ast.walk(wa) if isinstance(x, ast.Attribute) and dotted(x.value) == 'self'} if wa is not None else set()
+            # a local of save() carries the attributes its definitions read (`mipmap_count = self.mipmap_count`)
+            if wa is not None:
+                pend_, seen_ = [x.id for x in ast.walk(wa) if isinstance(x, ast.Name)], set()
+                while pend_:
+                    nm_ = pend_.pop()
+                    if nm_ in seen_:
+                        continue
+                    seen_.add(nm_)
+                    for a_ in walk_no_nested(sv):
+                        if isinstance(a_, ast.Assign) and any(isinstance(t, ast.Name) and t.id == nm_ for t in a_.targets):
+                            wattrs |= {x.attr for x in ast.walk(a_.value) if isinstance(x, ast.Attribute) and dotted(x.value) == 'self'}
+                            pend_ += [x.id for x in ast.walk(a_.value) if isinstance(x, ast.Name)]
             rattrs = reach.get(rn or '', set())
             if not wattrs and isinstance(wa, ast.Constant):
                 ctx.check('C15.F1', not rattrs, vtf, wa, f'slot {i}: a constant is packed where read() takes `{rn}`', func='VTF.save', text=f'header slot {i} placeholder')
@@ -240,6 +252,7 @@ def run(ctx: Any, prog: Program) -> None:
                     # names are replaced by what they stand for: object attributes lose their receiver, a header local becomes the attribute it is
                     # stored into, the local holding `<obj>._depth_range(...)` becomes DEPTH_RANGE
                     import copy as _copy
+                    self_busy: Set[str] = set()
 
                     class _C(ast.NodeTransformer):
                         def visit_Attribute(self, node: ast.Attribute) -> ast.AST:
@@ -251,9 +264,20 @@ def run(ctx: Any, prog: Program) -> None:
                             defs_ = [a.value for a in walk_no_nested(fn) if isinstance(a, ast.Assign) and any(isinstance(t, ast.Name) and t.id == node.id for t in a.targets)]
                             if defs_ and all(isinstance(d, ast.Call) and isinstance(d.func, ast.Attribute) and d.func.attr == '_depth_range' for d in defs_):
                                 return ast.Name(id='DEPTH_RANGE', ctx=ast.Load())
-                            at = reach.get(node.id, set())
+                            at = reach.get(node.id, set()) if obj != 'self' else set()
                             if len(at) == 1:
                                 return ast.Name(id=next(iter(at)), ctx=ast.Load())
+                            # a local of save(): assigned once from an attribute it stands for that attribute; assigned in several ways it is
+                            # whichever of them applies - written out, so that a bound that can differ from the attribute is seen to differ
+                            if obj == 'self' and defs_ and node.id not in self_busy:
+                                self_busy.add(node.id)
+                                try:
+                                    outs_ = sorted({ast.unparse(_C().visit(_copy.deepcopy(d))) for d in defs_})
+                                finally:
+                                    self_busy.discard(node.id)
+                                if len(outs_) == 1:
+                                    return ast.parse(outs_[0], mode='eval').body
+                                return ast.Name(id='<' + ' or '.join(outs_) + '>', ctx=ast.Load())
                             return node
                     return ast.unparse(_C().visit(_copy.deepcopy(e)))
 
@@ -932,6 +956,28 @@ def run(ctx: Any, prog: Program) -> None:
         ctx.check('C15.F6', order == fields, vtf, packs[0], f'TexCoord.to_binary packs {order} but from_binary passes the values positionally to the fields {fields}', func='TexCoord.to_binary', text='TexCoord field order')
     ok = "seq_num, clamp, frame_count, total_time" in fsrc.replace('(', '').replace(')', '') and 'SheetSequence(frames, clamp, total_time)' in fsrc
     ctx.shape('C15.F6', ok, vtf, fr_, 'sequence header fields reach the SheetSequence constructor in (frames, clamp, duration) order', func='SheetSequence.from_resource', text='sequence constructor linkage')
+    # the sheet layout is the caller's choice (`sheet_seq_version`), and it applies to the whole sheet: layout 0 keeps one coordinate per frame.
+    # save() hands the parameter to make_data as it came; a switch to the smaller layout decided by what *some* sequence looks like (`any`)
+    # drops coordinates 2-4 of all the others.  (Decided by `all`, the switch would be lossless - that is content reasoning this check does
+    # not do, so it declines there.)
+    sv6 = vtf.func('VTF.save')
+    mk_calls = [c for c in walk_no_nested(sv6) if isinstance(c, ast.Call) and isinstance(c.func, ast.Attribute) and c.func.attr == 'make_data']
+    ctx.shape('C15.F6', len(mk_calls) == 1 and len(mk_calls[0].args) == 2 and isinstance(mk_calls[0].args[1], ast.Name) and mk_calls[0].args[1].id in [a.arg for a in sv6.args.args + sv6.args.kwonlyargs],
+              vtf, sv6, 'save() passes its sheet_seq_version parameter to SheetSequence.make_data', func='VTF.save', text='sheet layout parameter handed on')
+    if len(mk_calls) == 1 and len(mk_calls[0].args) == 2 and isinstance(mk_calls[0].args[1], ast.Name):
+        pv = mk_calls[0].args[1].id
+        rebinds6 = [a for a in walk_no_nested(sv6) if isinstance(a, ast.Assign) and any(isinstance(t, ast.Name) and t.id == pv for t in a.targets)]
+        for rb in rebinds6:
+            guards6 = [g.test for g in _anc(vtf, rb, sv6) if isinstance(g, ast.If)]
+            existential = [c for g in guards6 for c in ast.walk(g) if isinstance(c, ast.Call) and dotted(c.func) == 'any']
+            to_small = isinstance(rb.value, ast.Constant) and rb.value.value == 0
+            if existential and to_small:
+                ctx.check('C15.F6', False, vtf, rb, f'save() switches the whole sheet to the one-coordinate layout (`{U(rb)}`) when `{U(existential[0])[:70]}` - a condition on some sequence: every other sequence loses '
+                          'coordinates 2-4 of its frames (read() repeats the first)', func='VTF.save', text='sheet layout parameter handed on')
+            else:
+                ctx.shape('C15.F6', False, vtf, rb, f'save() rebinds `{pv}` from the sheet content (`{U(rb)}`): whether that is lossless is not decided here', func='VTF.save', text='sheet layout parameter handed on')
+        if not rebinds6:
+            ctx.check('C15.F6', True, vtf, mk_calls[0], 'parameter handed on unchanged', func='VTF.save', text='sheet layout parameter handed on')
 
 
 def accepted_region(test: ast.AST, coords: Tuple[str, str] = ('x', 'y')) -> Dict[Tuple[str, str], str]:
@@ -1005,6 +1051,9 @@ def accepted_region(test: ast.AST, coords: Tuple[str, str] = ('x', 'y')) -> Dict
 
 
 MUTANTS: List[Dict[str, Any]] = [
+    {'id': 'no_mip_textures_saved_with_one_level', 'file': 'vtf.py', 'find': "        deferred.defer('header_size', '<I')\n", 'replace': "        mipmap_count = self.mipmap_count\n        if VTFFlags.NO_MIP in self.flags:\n            mipmap_count = min(mipmap_count, 1)\n        deferred.defer('header_size', '<I')\n", 'extra': [{'file': 'vtf.py', 'find': "            self.mipmap_count,\n            self.low_format.bin_value(asw_or_later),", 'replace': "            mipmap_count,\n            self.low_format.bin_value(asw_or_later),"}, {'file': 'vtf.py', 'find': "        for data_mipmap in reversed(range(self.mipmap_count)):\n            for frame_ind in range(self.frame_count):\n                for depth_or_cube in depth_seq:\n                    frame = self._frames[", 'replace': "        for data_mipmap in reversed(range(mipmap_count)):\n            for frame_ind in range(self.frame_count):\n                for depth_or_cube in depth_seq:\n                    frame = self._frames["}], 'expect': 'C15.F2'},
+    {'id': 'ok_mipmap_count_in_a_local', 'file': 'vtf.py', 'find': "        deferred.defer('header_size', '<I')\n", 'replace': "        mipmap_count = self.mipmap_count\n        deferred.defer('header_size', '<I')\n", 'extra': [{'file': 'vtf.py', 'find': "            self.mipmap_count,\n            self.low_format.bin_value(asw_or_later),", 'replace': "            mipmap_count,\n            self.low_format.bin_value(asw_or_later),"}, {'file': 'vtf.py', 'find': "        for data_mipmap in reversed(range(self.mipmap_count)):\n            for frame_ind in range(self.frame_count):\n                for depth_or_cube in depth_seq:\n                    frame = self._frames[", 'replace': "        for data_mipmap in reversed(range(mipmap_count)):\n            for frame_ind in range(self.frame_count):\n                for depth_or_cube in depth_seq:\n                    frame = self._frames["}], 'expect': None, 'note': 'negative control: the attribute taken into a local'},
+    {'id': 'sheet_layout_downgraded_when_any_sequence_is_single', 'file': 'vtf.py', 'find': "                particle_data = SheetSequence.make_data(self.sheet_info, sheet_seq_version)", 'replace': "                if sheet_seq_version == 1 and any(all(f[1] == f[2] == f[3] == f[4] for f in seq.frames) for seq in self.sheet_info.values()):\n                    sheet_seq_version = 0\n                particle_data = SheetSequence.make_data(self.sheet_info, sheet_seq_version)", 'expect': 'C15.F6'},
     {'id': 'copy_from_keeps_pending_load', 'file': 'vtf.py', 'find': "            if self._data is None:  # Duplicate the other array\n                self._data = source._data[:]\n            else:  # Copy the other array onto us\n                self._data[:] = source._data\n            self._fileinfo = None", 'replace': "            if self._data is None:  # Duplicate the other array\n                self._data = source._data[:]\n            else:  # Copy the other array onto us\n                self._data[:] = source._data\n                self._fileinfo = None", 'expect': 'C15.F2'},
     {'id': 'user_resource_flags_dropped', 'file': 'vtf.py', 'find': "                    file.write(struct.pack('<3sB', getattr(res_id, 'value', res_id), res.flags & ~0x02))", 'replace': "                    file.write(struct.pack('<3sB', getattr(res_id, 'value', res_id), 0))", 'expect': 'C15.F1'},
     {'id': 'grey_by_multiply_shift', 'file': '_py_vtf_readwrite.py', 'find': "        data[offset] = (\n            pixels[4 * offset] +\n            pixels[4 * offset + 1] +\n            pixels[4 * offset + 2]\n        ) // 3", 'replace': "        data[offset] = ((\n            pixels[4 * offset] +\n            pixels[4 * offset + 1] +\n            pixels[4 * offset + 2]\n        ) * 171) >> 9", 'expect': 'C15.F3'},
